@@ -288,7 +288,7 @@ func main() {
 	f := gallina.ParseFlags()
 	meta := gallina.NewMeta("C13", f.Seed, f.Tier)
 	meta.Rule = "one case = one real WAL directory written by wlog.WL.Log and read by wlog.Reader and wlog.LiveReader; fixed corpus of boundary layouts first, then logs generated from the writer's own position (LastSegmentAndOffset): record lengths aimed at page remainder -8..+2, segment remainder -1..+1, k pages -1..+1, larger than a segment, plus small/medium records, x compression {none,snappy,zstd} x pagesPerSegment {1,2,3,4} x close/no close x 6 release patterns for the live reader; non-trivial = the log has a record split into fragments, a zero-padded page or more than one segment; distinct by (compression, pps, batch record lengths, cut pattern)"
-	cf := &gallina.CaseFile{Dir: f.Out, Type: "case", PerShard: 9,
+	cf := &gallina.CaseFile{Dir: f.Out, Type: "case", PerShard: 8,
 		Preamble: "From Coq Require Import List ZArith NArith.\nFrom Verif Require Import model.Wal corr.CorrC13.\nImport ListNotations.\nOpen Scope Z_scope.\n",
 		Footer:   gallina.StdFooter}
 	if f.Tier == "thorough" {
@@ -695,7 +695,7 @@ func main() {
 	idx++
 
 	// ---- generated logs
-	n := f.Count(45, 700)
+	n := f.Count(38, 450)
 	for i := 0; i < n; i++ {
 		r := gen.Fork(f.Seed, 1000000+i)
 		cs := caseSpec{
